@@ -9,7 +9,12 @@ import (
 // c06scenario: one watching source installs versions 1..k (A == version == serial), a registrar
 // registers a callback with a fresh / stale / zero serial at an arbitrary moment and optionally
 // unregisters it again.
-func c06scenario(k int, withUnregister bool, slow bool) {
+func c06scenario(k int, withUnregister bool, slow bool) { c06scenarioX(k, withUnregister, slow, true, false) }
+
+// global: Params carries OnNewConfig/OnWatchedError; shutdown: the only watcher calls Done at an
+// arbitrary moment (reports and unregistrations may then fail; only the safety clauses are
+// asserted).
+func c06scenarioX(k int, withUnregister bool, slow bool, global bool, shutdown bool) {
 	verifyLog = nil
 	log := &cbLog{}
 	def := hcfg{}
@@ -17,22 +22,53 @@ func c06scenario(k int, withUnregister bool, slow bool) {
 	ctx, cancel := context.WithCancel(context.Background())
 	defer cancel()
 	p := log.params()
+	if !global {
+		p = Params[hcfg]{}
+	}
 	d, err := p.Config(ctx, &def, src)
 	if err != nil {
 		zzverif.Fail("C04 Config failed on a valid stack")
 		return
 	}
 	cfg0, ser0 := d.ViewVersion()
+	shutDone := make(chan struct{})
+	close(shutDone)
+	rctx := ctx
+	if shutdown {
+		// a report issued after the watcher's own Done may block until its context ends: that
+		// context ends once nothing else can move
+		var rcancel context.CancelFunc
+		rctx, rcancel = context.WithCancel(ctx)
+		go func() {
+			zzverif.Daemon()
+			zzverif.Quiesce()
+			rcancel()
+		}()
+	}
 	repDone := make(chan struct{})
+	startRep := make(chan struct{})
+	if !shutdown {
+		close(startRep)
+	}
 	go func() {
 		defer close(repDone)
+		<-startRep
+		if shutdown {
+			defer src.wa.Done(rctx) // the watcher finishes after its last report
+		}
 		for i := 1; i <= k; i++ {
-			if e := src.wa.ReportNewValue(ctx, mkValue(src.t, hval{setA: true, a: int64(i)})); e != nil {
+			if e := src.wa.ReportNewValue(rctx, mkValue(src.t, hval{setA: true, a: int64(i)})); e != nil {
+				if shutdown {
+					return
+				}
 				zzverif.Fail("C08 ReportNewValue failed with a live context")
 			}
 		}
 	}()
-	mode := zzverif.Choose("serial", 3) // 0 fresh, 1 stale (initial), 2 zero
+	mode := 0
+	if !shutdown {
+		mode = zzverif.Choose("serial", 3) // 0 fresh, 1 stale (initial), 2 zero
+	}
 	var regVersion int64 = -1
 	var regCfg *hcfg
 	var calls []struct{ old, new *hcfg }
@@ -70,18 +106,38 @@ func c06scenario(k int, withUnregister bool, slow bool) {
 		unreg = d.RegisterCallback(ctx, CfgSerial[hcfg]{}, cb)
 	}
 	zzverif.Assert(unreg != nil, "C08 RegisterCallback returned nil although its context is live")
+	if shutdown {
+		close(startRep) // registration is in place before the first report
+	}
 	if unreg == nil {
+		<-repDone
+		<-shutDone
 		return
 	}
-	if withUnregister && zzverif.Choose("unregister", 2) == 1 {
+	if withUnregister && (shutdown || zzverif.Choose("unregister", 2) == 1) {
 		if unreg(ctx) {
 			unregistered = true
-		} else {
+		} else if !shutdown {
 			zzverif.Fail("C08 unregister failed although its context is live")
 		}
 	}
 	<-repDone
+	<-shutDone
 	zzverif.Quiesce()
+	if shutdown {
+		// prefix of the installation order, nothing else is promised once the watcher is done
+		for i, n := range log.newCfg {
+			zzverif.Assert(n.new.A == int64(i+1) && n.old.A == int64(i), "C06 OnNewConfig calls are not in installation order with (predecessor, new)")
+		}
+		zzverif.Reached("c06-shutdown-end")
+		return
+	}
+	if !global {
+		log.newCfg = nil
+		for i := 1; i <= k; i++ {
+			log.newCfg = append(log.newCfg, struct{ old, new *hcfg }{&hcfg{A: int64(i - 1)}, &hcfg{A: int64(i)}})
+		}
+	}
 	// no drops here (k << 64): the global callback saw every installed version in order
 	zzverif.Assert(len(log.newCfg) == k, "C06 OnNewConfig was not called once per installed version")
 	for i, n := range log.newCfg {
@@ -115,3 +171,11 @@ func HarnessC06Unregister() { c06scenario(2, true, false) }
 
 // HarnessC06Thorough: 3 versions, unregister, slow callbacks.
 func HarnessC06Thorough() { c06scenario(3, true, true) }
+
+// HarnessC06NoGlobal: no global callbacks configured; the registered callback is the only
+// listener (catch-up and no-skip clauses must hold all the same).
+func HarnessC06NoGlobal() { c06scenarioX(2, false, false, false, false) }
+
+// HarnessC06UnregisterShutdown: a slow callback, an unregistration and the watcher's Done race:
+// whenever unregister returned true the callback is not invoked again.
+func HarnessC06UnregisterShutdown() { c06scenarioX(2, true, false, false, true) }
